@@ -61,6 +61,22 @@ def gen(ctx):
                    "heapq.heappop(self._deferrals)", "self._fifo_locks.discard(key)", "self._fifo_locks.add(key)"]:
         if needle not in src:
             raise T.Untranslatable(f"UNTRANSLATABLE: expected statement not found in queue.py: {needle}")
+    # idle reporting (daemon/update.py)
+    upd = T.parse(core.REPO / "alpenhorn/daemon/update.py")
+    ni = T.find_func(upd, "UpdateableNode.idle")
+    if [ast.unparse(x) for x in T.strip_doc(ni.body)] != ["return self._queue.fifo_size(self.io.fifo) == 0"]:
+        raise T.Untranslatable("UNTRANSLATABLE: UpdateableNode.idle is no longer the emptiness of the node's FIFO")
+    gi = T.find_func(upd, "UpdateableGroup.idle")
+    body = T.strip_doc(gi.body)
+    shape = [type(x).__name__ for x in body]
+    ok = (shape == ["If", "If", "For", "Return"]
+          and ast.unparse(body[0].test) == "self._queue.fifo_size(self.io.fifo)" and ast.unparse(body[0].body[0]) == "return False"
+          and ast.unparse(body[1].test) == "self._nodes is None" and ast.unparse(body[1].body[0]) == "return False"
+          and ast.unparse(body[2].iter) == "self._nodes" and len(body[2].body) == 1 and isinstance(body[2].body[0], ast.If)
+          and ast.unparse(body[2].body[0].test) == "not node.idle" and [ast.unparse(x) for x in body[2].body[0].body] == ["return False"] and not body[2].body[0].orelse
+          and ast.unparse(body[3]) == "return True")
+    if not ok:
+        raise T.Untranslatable(f"UNTRANSLATABLE: UpdateableGroup.idle no longer has the shape (group FIFO, nodes known, every node idle): {ast.unparse(gi)[:400]}")
     # Task.__call__: the re-queue call
     tt = T.parse(core.REPO / "alpenhorn/scheduler/task.py")
     fc = T.find_func(tt, "Task.__call__")
@@ -520,9 +536,76 @@ CORPUS = [
 ]
 
 
+def explore_idle(ctx, n):
+    """UpdateableNode.idle / UpdateableGroup.idle against the true contents of the queue"""
+    from alpenhorn.daemon import update as U
+    from alpenhorn.scheduler import FairMultiFIFOQueue
+    from vf.harness import world as w
+
+    rng = ctx.rng
+    terms, keep = [], []
+    for k in range(n):
+        w.fresh_db(host="h1")
+        g = w.mkgroup("g", io_class=rng.choice([None, "Transport"]))
+        nn = rng.randint(1, 4)
+        rows = [w.mknode(None, f"n{j}", g, stype="T", host="h1", root=f"/nonexistent/n{j}") for j in range(nn)]
+        queue = FairMultiFIFOQueue()
+        unodes = [U.UpdateableNode(queue, w.StorageNode.get(id=r.id)) for r in rows]
+        known = rng.random() < 0.9
+        try:
+            ug = U.UpdateableGroup(queue=queue, group=w.StorageGroup.get(id=g.id), nodes=unodes if known else [], idle=True)
+        except Exception:
+            continue
+        if not known:
+            ug._nodes = None
+        elif ug._nodes is None:
+            continue
+        keys = [ug.io.fifo] + [u.io.fifo for u in unodes]
+        taken = []
+        for key in keys:
+            for _ in range(rng.choice([0, 0, 0, 1, 2])):
+                queue.put(object(), key)
+        for _ in range(rng.randint(0, 3)):
+            it = queue.get(timeout=0.001)
+            if it is not None:
+                taken.append(it)
+                if rng.random() < 0.4:
+                    queue.task_done(it[1])
+                    taken.pop()
+        # the truth, read from the queue's own internals
+        with queue._lock:
+            truth = {key: len(queue._fifos.get(key, ())) for key in keys}
+        for it in taken:
+            truth[it[1]] += 1
+        order = ug._nodes if ug._nodes is not None else []
+        nidle = [bool(u.idle) for u in order]
+        gidle = bool(ug.idle)
+        ctx.count("idle-report")
+        if sum(truth.values()):
+            ctx.distinct_add(("idle", repr(sorted(truth.items())), known))
+        rp = {"family": "idle", "queued_plus_running": truth, "nodes_known": known, "node_idle": nidle, "group_idle": gidle}
+        for u, flag in zip(order, nidle):
+            if flag != (truth[u.io.fifo] == 0):
+                ctx.fail("C11:node-idle", f"node {u.name} reported idle={flag} with {truth[u.io.fifo]} queued or running task(s)", rp)
+        want = truth[ug.io.fifo] == 0 and ug._nodes is not None and all(truth[u.io.fifo] == 0 for u in order)
+        if gidle != want:
+            ctx.fail("C11:group-idle", f"group reported idle={gidle}; queued or running per FIFO: {truth} (nodes known: {ug._nodes is not None})", rp)
+        idx = {key: i + 1 for i, key in enumerate(keys)}
+        terms.append(ctup(clist([ctup(cn(idx[key]), cn(v)) for key, v in truth.items()], "(N * N)"), cn(idx[ug.io.fifo]),
+                          ("None" if ug._nodes is None else "(Some " + clist([cn(idx[u.io.fifo]) for u in order], "N") + ")"),
+                          clist([cbool(x) for x in nidle], "bool"), cbool(gidle)))
+        keep.append(rp)
+        if k == 0:
+            ctx.sample(rp)
+    bad = core.run_cases(ctx, "idle", "Corr.C11", "icase", "icheck", terms, shard=500, extra_imports=("Model.Idle",))
+    for b in bad[:3]:
+        ctx.broke("correspondence", f"idle reporting: model and implementation differ on {keep[b]}")
+
+
 def explore(ctx):
     rng = ctx.rng
     terms = []
+    explore_idle(ctx, 150 if ctx.quick() else 4000)
     # corpus with enumerated schedules
     for programs, excl_of in CORPUS:
         ex = sched.Explorer()
